@@ -34,6 +34,8 @@ func init() {
 				o.init = cursorio.TextOffset{Byte: cursorio.ByteOffset(n), LineColumn: cursorio.TextLineColumn{7, 9}}
 			case len(x) > 5 && x[:5] == "base=":
 				o.base = x[5:]
+			case len(x) > 5 && x[:5] == "mode=":
+				o.mode = x[5:]
 			}
 		}
 		res := zooRun(a[0], data, o)
